@@ -10,7 +10,13 @@ pub assume_specification<T: Default>[ core::mem::take::<T> ](dest: &mut T) -> (r
 
 pub assume_specification<T>[ Option::<T>::or ](a: Option<T>, b: Option<T>) -> (r: Option<T>)
     ensures r == (if a is Some { a } else { b });
+
+pub assume_specification<T, P: FnOnce(&T) -> bool>[ Option::<T>::filter ](o: Option<T>, p: P) -> (r: Option<T>)
+    requires o is Some ==> p.requires((&o->0,)),
+    ensures
+        o is None ==> r is None,
+        o is Some ==> ((p.ensures((&o->0,), true) ==> r == o) && (p.ensures((&o->0,), false) ==> r is None) && (r is None || r == o));
 """
-N_STD_TOKENS = 3
-STD_ASSUMPTION = {"what": "core::mem::replace / core::mem::take / Option::or have their documented std meaning (assume_specification)",
+N_STD_TOKENS = 4
+STD_ASSUMPTION = {"what": "core::mem::replace / core::mem::take / Option::or / Option::filter have their documented std meaning (assume_specification)",
                   "count": N_STD_TOKENS}
